@@ -15,11 +15,11 @@ import (
 func init() {
 	Register(&Rule{
 		ID: "C24", Section: "5 C24",
-		Technique: "use census of framing-header reads (count inspected vs element 0 only), natural-loop exit analysis of the Transfer-Encoding scan, resolved branch facts on every success return of fixTransferEncoding/fixLength/parseContentLength/readTransfer/ReadRequest/parseRequestLine, validator-gate search (dominating branch on a predicate whose constant-folded verdict rejects SP/CR) before the header-map insertion of ReadMIMEHeaderAndKeys, table agreement of isTokenTable with RFC 7230 tchar",
+		Technique: "use census of framing-header reads (count inspected vs element 0 only), natural-loop exit analysis of the Transfer-Encoding scan, resolved branch facts on every success return of fixTransferEncoding/fixLength/parseContentLength/readTransfer/ReadRequest/parseRequestLine, validator-gate search (dominating branch on a predicate whose constant-folded verdict rejects SP/CR) before the header-map insertion of ReadMIMEHeaderAndKeys, table agreement of isTokenTable with RFC 7230 tchar, value-origin census of the method consulted by the shared request/response framing code (who-may-write transferReader.RequestMethod, call-site arguments) with response-only guard recognition",
 		Meta: core.Meta{
 			Level:       "other",
-			Explanation: "Decides: (a) multiplicity: fixTransferEncoding and fixLength must inspect the number of Transfer-Encoding / Content-Length field values (len or a loop over all) instead of element 0 / GetDirect only; (b) Transfer-Encoding grammar: the loop over the comma-separated codings is left early only into an error return, every element either is stored as \"chunked\" or ends in an error, a non-empty result has len <= 1 and is returned only after delete(header, \"Content-Length\"); chunked() is len(te) > 0 && te[0|last] == \"chunked\"; (c) Content-Length: read only when not chunked, parse errors are returned, the accepted value is the parsed one, parseContentLength accepts only err == nil && n >= 0 and must not accept a sign (ParseUint or a digit gate); (d) readTransfer returns nil only when fixTransferEncoding, fixLength and fixTrailer succeeded, stores their results, and the length-delimited body is LimitReader(r, that length) under length > 0; (e) ReadRequest returns a request only when parseRequestLine ok, ParseHTTPVersion ok, ParseRequestURI, ReadMIMEHeaderAndKeys and readTransfer succeeded, every other return is (nil, non-nil error), Method/RequestURI/Header are the parsed ones; parseRequestLine says ok only with two separators found; (f) ReadMIMEHeaderAndKeys inserts only under `colon found`, the key is canonicalMIMEHeaderKey(kv[:colon]), the value starts after the colon, a read error is never dropped, and the insertion must be dominated by a validity gate over the name bytes that rejects SP/HT/CR (field-name gate, whitespace before colon); isTokenTable equals the RFC 7230 tchar set and validHeaderFieldByte follows it. Not covered: equality with a reference parser on whole streams, obs-fold handling, Host multiplicity, response framing, bare CR inside lines.",
-			RuleText:    "obligations = each framing-header read, each loop exit / element path of the Transfer-Encoding scan, each success return of the framing functions and of ReadRequest, each error return of ReadRequest, each header-map insertion, the token table",
+			Explanation: "Decides: (a) multiplicity: fixTransferEncoding and fixLength must inspect the number of Transfer-Encoding / Content-Length field values (len or a loop over all) instead of element 0 / GetDirect only; (b) Transfer-Encoding grammar: the loop over the comma-separated codings is left early only into an error return, every element either is stored as \"chunked\" or ends in an error, a non-empty result has len <= 1 and is returned only after delete(header, \"Content-Length\"); chunked() is len(te) > 0 && te[0|last] == \"chunked\"; (c) Content-Length: read only when not chunked, parse errors are returned, the accepted value is the parsed one, parseContentLength accepts only err == nil && n >= 0 and must not accept a sign (ParseUint or a digit gate); (d) readTransfer returns nil only when fixTransferEncoding, fixLength and fixTrailer succeeded, stores their results, and the length-delimited body is LimitReader(r, that length) under length > 0; (e) ReadRequest returns a request only when parseRequestLine ok, ParseHTTPVersion ok, ParseRequestURI, ReadMIMEHeaderAndKeys and readTransfer succeeded, every other return is (nil, non-nil error), Method/RequestURI/Header are the parsed ones; parseRequestLine says ok only with two separators found; (f) ReadMIMEHeaderAndKeys inserts only under `colon found`, the key is canonicalMIMEHeaderKey(kv[:colon]), the value starts after the colon, a read error is never dropped, and the insertion must be dominated by a validity gate over the name bytes that rejects SP/HT/CR (field-name gate, whitespace before colon); isTokenTable equals the RFC 7230 tchar set and validHeaderFieldByte follows it; (g) request framing is method-independent: every branch of readTransfer/fixLength/fixTransferEncoding/fixTrailer on a request method (noBodyExpected(m), m == \"HEAD\"/\"GET\") either consults a method that can never be the parsed request's own (all writers of transferReader.RequestMethod and all arguments bound to the method parameter are constants or Response.Request.Method) or is taken only under the message-is-a-response evidence (isResponse / the *Response type-switch arm). Not covered: equality with a reference parser on whole streams, obs-fold handling, Host multiplicity, response framing, bare CR inside lines.",
+			RuleText:    "obligations = each framing-header read, each loop exit / element path of the Transfer-Encoding scan, each success return of the framing functions and of ReadRequest, each error return of ReadRequest, each header-map insertion, the token table, each method-dependent branch of the framing functions",
 			Assumptions: []string{"strconv.ParseUint rejects a leading sign; net/url.ParseRequestURI returns an error for malformed targets"},
 		},
 		Run: runC24,
@@ -29,7 +29,7 @@ func init() {
 			{Name: "te-keeps-content-length", File: "bfe_http/transfer.go", Old: "		delete(header, \"Content-Length\")\n		return te, nil", New: "		return te, nil", Expect: "te-grammar|fixTransferEncoding:deletes-content-length"},
 			{Name: "cl-before-chunked", File: "bfe_http/transfer.go", Old: "	// Logic based on Transfer-Encoding\n	if chunked(te) {\n		return -1, nil\n	}\n", New: "", Expect: "cl|fixLength:chunked-precedence"},
 			{Name: "cl-error-swallowed", File: "bfe_http/transfer.go", Old: "		n, err := parseContentLength(cl)\n		if err != nil {\n			return -1, err\n		}\n		return n, nil", New: "		n, _ := parseContentLength(cl)\n		return n, nil", Expect: "cl|fixLength:parse-error"},
-			{Name: "cl-negative-accepted", File: "bfe_http/transfer.go", Old: "	if err != nil || n < 0 {\n		return 0, &badStringError{\"bad Content-Length\", cl}", New: "	if err != nil {\n		return 0, &badStringError{\"bad Content-Length\", cl}", Expect: "cl|parseContentLength:nonneg"},
+			{Name: "cl-negative-accepted", File: "bfe_http/transfer.go", Old: "strconv.ParseUint(cl, 10, 63)", New: "strconv.ParseInt(cl, 10, 64)", Expect: "cl|parseContentLength:nonneg"},
 			{Name: "transfer-te-error-ignored", File: "bfe_http/transfer.go", Old: "	t.TransferEncoding, err = fixTransferEncoding(t.RequestMethod, t.Header)\n	if err != nil {\n		return err\n	}", New: "	t.TransferEncoding, _ = fixTransferEncoding(t.RequestMethod, t.Header)", Expect: "transfer|readTransfer:success"},
 			{Name: "transfer-limit-plus-one", File: "bfe_http/transfer.go", Old: "io.LimitReader(r, realLength), r: r, closing: t.Close}", New: "io.LimitReader(r, realLength+1), r: r, closing: t.Close}", Expect: "transfer|readTransfer:length-body"},
 			{Name: "request-line-unchecked", File: "bfe_http/request.go", Old: "	if !ok {\n		return nil, &badStringError{\"malformed HTTP request\", s}\n	}\n", New: "", Expect: "accept|ReadRequest:parseRequestLine"},
@@ -39,6 +39,9 @@ func init() {
 			{Name: "mime-key-includes-colon", File: "bfe_net/textproto/reader.go", Old: "		key := canonicalMIMEHeaderKey(kv[:i])", New: "		key := canonicalMIMEHeaderKey(kv[:i+1])", Expect: "mime|ReadMIMEHeaderAndKeys:key-before-colon"},
 			{Name: "mime-error-dropped", File: "bfe_net/textproto/reader.go", Old: "		if len(kv) == 0 {\n			return m, mkeys, err\n		}", New: "		if len(kv) == 0 {\n			return m, mkeys, nil\n		}", Expect: "mime|ReadMIMEHeaderAndKeys:error-propagated"},
 			{Name: "token-table-space", File: "bfe_net/textproto/reader.go", Old: "var isTokenTable = [127]bool{\n	'!':  true,", New: "var isTokenTable = [127]bool{\n	' ':  true,\n	'!':  true,", Expect: "token-table|textproto.isTokenTable"},
+			{Name: "request-method-reaches-framing", File: "bfe_http/transfer.go", Old: "	case *Request:\n		t.Header = rr.Header\n", New: "	case *Request:\n		t.Header = rr.Header\n		t.RequestMethod = rr.Method\n", Expect: "method-independent|"},
+			{Name: "request-method-passed-to-fixlength", File: "bfe_http/transfer.go", Old: "	realLength, err := fixLength(isResponse, t.StatusCode, t.RequestMethod, t.Header, t.TransferEncoding)", New: "	reqMethod := t.RequestMethod\n	if rq, isReq := msg.(*Request); isReq {\n		reqMethod = rq.Method\n	}\n	realLength, err := fixLength(isResponse, t.StatusCode, reqMethod, t.Header, t.TransferEncoding)", Expect: "method-independent|fixLength"},
+			{Name: "silent-head-test-restricted-to-responses", Silent: true, File: "bfe_http/transfer.go", Old: "	if noBodyExpected(requestMethod) {\n		return 0, nil\n	}", New: "	if isResponse && noBodyExpected(requestMethod) {\n		return 0, nil\n	}"},
 			{Name: "silent-te-rename", Silent: true, File: "bfe_http/transfer.go", Old: "	encodings := strings.Split(raw[0], \",\")\n	te := make([]string, 0, len(encodings))", New: "	codings := strings.Split(raw[0], \",\")\n	encodings := codings\n	te := make([]string, 0, len(codings))"},
 		},
 	})
@@ -99,6 +102,7 @@ func runC24(c *core.Ctx) {
 	c24ReadTransfer(c, fx)
 	c24ReadRequest(c, fx)
 	c24MIME(c, fx)
+	c24MethodIndependent(c, fx)
 }
 
 // ------------------------------------------------------------ (a) multiplicity
@@ -920,4 +924,244 @@ func c24MIME(c *core.Ctx, fx *h1aFacts) {
 		}
 	}
 	_ = types.Typ
+}
+
+// ------------------------------------------------------------ (g) request framing is method-independent
+
+// c24MethodIndependent: RFC 7230 frames a request by Transfer-Encoding and
+// Content-Length alone. bfe_http shares readTransfer/fixLength between
+// requests and responses and the "no body expected" tests on the request
+// method are meant for responses (reply to HEAD). Every branch of the framing
+// functions that depends on a method value is an obligation: it is discharged
+// when the method consulted can never be the method of the request being
+// parsed (every writer of transferReader.RequestMethod stores a constant or
+// the Method of a Response's originating request, and likewise for the
+// arguments bound to a method parameter), or when the branch is taken only
+// with the "message is a response" evidence established.
+func c24MethodIndependent(c *core.Ctx, fx *h1aFacts) {
+	const pkg = "bfe_http"
+	const rule = "method-independent"
+	c.Min(rule, 3)
+	fld, _ := c.P.Obj(pkg, "transferReader.RequestMethod").(*types.Var)
+	reqMethod, _ := c.P.Obj(pkg, "Request.Method").(*types.Var)
+	respReq, _ := c.P.Obj(pkg, "Response.Request").(*types.Var)
+	if fld == nil || reqMethod == nil || respReq == nil {
+		c.Missing(pkg + ".transferReader.RequestMethod / Request.Method / Response.Request")
+		return
+	}
+	scope := c.P.SrcFuncs(pkg)
+	// is the stored / passed value certainly not the parsed request's own method?
+	fieldOf := func(v ssa.Value) (*types.Var, ssa.Value) {
+		v = core.StripConv(v)
+		if u, ok := v.(*ssa.UnOp); ok && u.Op == token.MUL {
+			v = u.X
+		}
+		switch x := v.(type) {
+		case *ssa.FieldAddr:
+			return core.FieldObj(x.X, x.Field), x.X
+		case *ssa.Field:
+			return core.FieldObj(x.X, x.Field), x.X
+		}
+		return nil, nil
+	}
+	var fieldTaint []string
+	for _, st := range core.FieldStores(scope, fld) {
+		v := st.Store.Val
+		if _, isK := core.ConstString(v); isK {
+			continue
+		}
+		if f, base := fieldOf(v); f == reqMethod {
+			if bf, _ := fieldOf(base); bf == respReq {
+				continue // the method of the request a response answers
+			}
+		}
+		fieldTaint = append(fieldTaint, core.FuncKey(st.Fn)+" stores "+core.Render(v)+" at "+c.P.Pos(st.Store.Pos()))
+	}
+	// taint(v): the reasons why v may be the parsed request's method (nil = cannot)
+	var taint func(v ssa.Value, fn *ssa.Function, d int) []string
+	taint = func(v ssa.Value, fn *ssa.Function, d int) []string {
+		v = core.StripConv(v)
+		if _, isK := core.ConstString(v); isK {
+			return nil
+		}
+		if d > 3 {
+			return []string{"value flow too deep at " + core.Render(v)}
+		}
+		switch x := v.(type) {
+		case *ssa.Phi:
+			var out []string
+			for _, e := range x.Edges {
+				out = append(out, taint(e, fn, d+1)...)
+			}
+			return out
+		case *ssa.Parameter:
+			var out []string
+			idx := -1
+			for i, p := range fn.Params {
+				if p == x {
+					idx = i
+				}
+			}
+			callers := h1bStaticCallers(c.P.SrcFuncs(""), fn)
+			if idx < 0 || len(callers) == 0 || len(h1bFuncValueUses(c.P.SrcFuncs(""), fn)) > 0 {
+				return []string{"callers of " + core.FuncKey(fn) + " cannot be enumerated"}
+			}
+			for _, ci := range callers {
+				if idx < len(ci.Common().Args) {
+					out = append(out, taint(ci.Common().Args[idx], ci.Parent(), d+1)...)
+				}
+			}
+			return out
+		}
+		if f, base := fieldOf(v); f != nil {
+			if f == fld {
+				return fieldTaint
+			}
+			if f == reqMethod {
+				if bf, _ := fieldOf(base); bf == respReq {
+					return nil
+				}
+				return []string{core.Render(v) + " is the Method of the message being read"}
+			}
+		}
+		return []string{"origin of " + core.Render(v) + " not followed"}
+	}
+	// "the message is a response" evidence
+	var isRespFlag func(v ssa.Value, fn *ssa.Function, d int) bool
+	isRespFlag = func(v ssa.Value, fn *ssa.Function, d int) bool {
+		if d > 3 {
+			return false
+		}
+		switch x := v.(type) {
+		case *ssa.Extract:
+			ta, ok := x.Tuple.(*ssa.TypeAssert)
+			return ok && x.Index == 1 && core.TypeStr(ta.AssertedType) == "*bfe_http.Response"
+		case *ssa.Phi:
+			nTrue := 0
+			for i, e := range x.Edges {
+				b, isB := h1aConstBool(e)
+				if !isB {
+					return false
+				}
+				if !b {
+					continue
+				}
+				nTrue++
+				ok := false
+				for _, f := range fx.Edge(x.Block().Preds[i], x.Block()) {
+					if _, isPhi := f.Cond.(*ssa.Phi); !isPhi && f.Pol && isRespFlag(f.Cond, fn, d+1) {
+						ok = true
+					}
+				}
+				if !ok {
+					return false
+				}
+			}
+			return nTrue > 0
+		case *ssa.Parameter:
+			idx := -1
+			for i, p := range fn.Params {
+				if p == x {
+					idx = i
+				}
+			}
+			callers := h1bStaticCallers(c.P.SrcFuncs(""), fn)
+			if idx < 0 || len(callers) == 0 {
+				return false
+			}
+			for _, ci := range callers {
+				if idx >= len(ci.Common().Args) || !isRespFlag(h1aResolve(ci.Common().Args[idx]), ci.Parent(), d+1) {
+					return false
+				}
+			}
+			return true
+		}
+		return false
+	}
+	respGuarded := func(b *ssa.BasicBlock) bool {
+		for _, f := range fx.At(b) {
+			if f.Pol && isRespFlag(h1aResolve(f.Cond), b.Parent(), 0) {
+				return true
+			}
+		}
+		return false
+	}
+	// a value that denotes "a request method" inside fn
+	var isMethodVal func(v ssa.Value, fn *ssa.Function, d int) bool
+	isMethodVal = func(v ssa.Value, fn *ssa.Function, d int) bool {
+		v = core.StripConv(v)
+		if d > 3 {
+			return false
+		}
+		if f, _ := fieldOf(v); f == fld || f == reqMethod {
+			return true
+		}
+		if p, ok := v.(*ssa.Parameter); ok {
+			for i, q := range fn.Params {
+				if q != p {
+					continue
+				}
+				for _, ci := range h1bStaticCallers(scope, fn) {
+					if i < len(ci.Common().Args) && isMethodVal(ci.Common().Args[i], ci.Parent(), d+1) {
+						return true
+					}
+				}
+			}
+		}
+		if phi, ok := v.(*ssa.Phi); ok {
+			for _, e := range phi.Edges {
+				if isMethodVal(e, fn, d+1) {
+					return true
+				}
+			}
+		}
+		return false
+	}
+	for _, name := range []string{"readTransfer", "fixLength", "fixTransferEncoding", "fixTrailer"} {
+		fn := c.P.Func(pkg, name)
+		if fn == nil {
+			c.Missing(pkg + "." + name)
+			continue
+		}
+		n := map[string]int{}
+		core.Instrs(fn, func(in ssa.Instruction) {
+			var mv ssa.Value
+			kind := ""
+			switch x := in.(type) {
+			case *ssa.Call:
+				if core.CallIs(&x.Call, pkg+".noBodyExpected") && len(x.Call.Args) == 1 {
+					mv, kind = x.Call.Args[0], "noBodyExpected"
+				}
+			case *ssa.BinOp:
+				if x.Op != token.EQL && x.Op != token.NEQ {
+					return
+				}
+				if s, ok := core.ConstString(x.Y); ok && isMethodVal(x.X, fn, 0) {
+					mv, kind = x.X, "method=="+s
+				} else if s, ok := core.ConstString(x.X); ok && isMethodVal(x.Y, fn, 0) {
+					mv, kind = x.Y, "method=="+s
+				}
+			}
+			if mv == nil {
+				return
+			}
+			why := taint(mv, fn, 0)
+			ok := len(why) == 0 || respGuarded(in.Block())
+			c.Check(rule, h1bOrd(name+":"+kind, n), in.Pos(), ok,
+				"the framing code branches on a request method ("+core.Render(mv)+") that can be the method of the request being parsed ("+strings.Join(uniqStrings(why), "; ")+
+					") and the branch is not restricted to responses: a request's body boundaries would depend on its method (e.g. a HEAD request with Content-Length or chunked body is framed with an empty body and its body bytes are parsed as the next request); RFC 7230 3.3.3 frames requests by Transfer-Encoding and Content-Length only; facts: "+strings.Join(h1aFactStrs(fx.At(in.Block())), " && "))
+		})
+	}
+}
+
+func uniqStrings(in []string) []string {
+	seen := map[string]bool{}
+	var out []string
+	for _, s := range in {
+		if !seen[s] {
+			seen[s] = true
+			out = append(out, s)
+		}
+	}
+	return out
 }
